@@ -145,6 +145,9 @@ def check(ix, rep):
     from sa.rules import units as _units
     nr = _units.check_forwarding_reach(ix, rep)
     rep.floor('interpreters a sampling setting has to reach', nr, 2)
+    # bound conversions stay exact: an int bound must not become a float that the discrete transformer cannot take apart (shared with C08)
+    from sa.props.c08 import check_exact_division
+    check_exact_division(ix, rep)
     # an inherited caller meets the overriding callee: self-calls are matched against every class they can run in
     from sa.rules import selfarity
     na = selfarity.check(ix, rep)
